@@ -16,3 +16,6 @@ open Dashu.Props.C13Link
 #print axioms pow_kernels_all
 #print axioms add_sub_neg_kernels_all
 #print axioms add_in_place_exact
+#print axioms add_sub_neg_ops_all
+#print axioms add_logic_gen
+#print axioms inv_large_buffers_all
